@@ -257,6 +257,8 @@ def grad_check(H):
         cx.oblige("C15.grad.shape", o.get(k).shape.eq(I.get(k).shape))
         if not sweeps:
             cx.oblige("C15.grad.no_sweep_only_without_outputs", O.length == 0)
+            # the vector-Jacobian product over an empty set of outputs is the empty sum
+            cx.oblige("C15.grad.no_outputs_gives_zeros", o.get(k).elem([c]) == 0)
             return
         cx.oblige("C15.grad.ghost.single_sweep_with_callers_flag", z3.And(len(sweeps) == 1, lift(sweeps[0][1]["retain"]) == rg,
                                                                           sweeps[0][1]["create_graph"] is False))
